@@ -12,11 +12,18 @@ Decided inductively on the validator's own state (OnsetValidator._onsets):
                     the mini schema: a temporal group is accepted iff it has the shape the HED rules allow.
 """
 from vp import reg as R
-from vp import chx
+from vp import chx, msgstub
 from models import onset_ref as ref
+from vp.mini import MINI
+from hed.models.hed_string import HedString
+from hed.validator.def_validator import DefValidator
 from hed.validator.onset_validator import OnsetValidator
+from hed.errors.error_types import TemporalErrors
 
 chx.install()
+# the two messages that print a LIST of tags: repr() of a symbolic name realises it (see vp/msgstub.py)
+msgstub.mute(TemporalErrors.ONSET_WRONG_NUMBER_GROUPS)
+msgstub.mute(TemporalErrors.ONSET_TOO_MANY_DEFS)
 
 _TTE = "TEMPORAL_TAG_ERROR"
 
@@ -164,6 +171,77 @@ def onset_time_point(n1: str, open1: bool, m: int, kind_a: int, name_a: str, def
     return _post_state_ok(ov, want)
 
 
+# ---- structure of one temporal group: the real parser + DefValidator.validate_onset_offset on the mini schema
+_DEFS = DefValidator(["(Definition/x, (B))", "(Definition/y/#, (C/#))"], MINI)   # x: no value, y: takes a value
+
+
+def _shape_text(kind, n_defs, expand, n_groups, n_tags, delay):
+    text = "("
+    if n_defs >= 1:
+        text += "(Def-expand/x, (B)), " if expand else "Def/x, "
+    if n_defs == 2:
+        text += "Def/y/1, "
+    text += ref.KIND_TAGS[kind]
+    text += [", (A)", ", (A), (F)"][n_groups - 1] if n_groups else ""
+    text += [", A", ", A, F"][n_tags - 1] if n_tags else ""
+    if delay:
+        text += ", Delay/1 s"
+    return text + ")"
+
+
+# fixtures: every shape parsed ONCE, concretely, by the real HedString/HedTag code at import (parsing a concrete
+# string inside each symbolic path costs ~1 s per path under CrossHair's tracer and adds nothing symbolic)
+_SHAPES = [[[[[[HedString(_shape_text(k, d, e, g, t, y), MINI) for y in (False, True)] for t in range(3)]
+              for g in range(3)] for e in (False, True)] for d in range(3)] for k in range(3)]
+
+
+def _pick(i):
+    """the concrete int equal to i in 0..2 (one fork per value; indexing a list with a symbolic int instead yields
+    several overlapping paths per element)"""
+    if i == 0:
+        return 0
+    if i == 1:
+        return 1
+    return 2
+
+
+def _defname_ok(d):
+    return len(d) <= R.M(2) and R.ascii_printable(d)
+
+
+def _cell_ndefs(n):
+    k = R.env_int("VP_NDEFS")
+    return k is None or n == k
+
+
+def onset_group_shape(kind: int, n_defs: int, expand: bool, n_groups: int, n_tags: int, delay: bool,
+                      dname: str) -> bool:
+    """
+    pre: 0 <= kind <= 2 and _cell_kind(kind)
+    pre: 0 <= n_defs <= 2 and _cell_ndefs(n_defs)
+    pre: 0 <= n_groups <= 2 and 0 <= n_tags <= 2
+    pre: _defname_ok(dname)
+    post: _
+    """
+    kind, n_defs, n_groups, n_tags = _pick(kind), _pick(n_defs), _pick(n_groups), _pick(n_tags)
+    hs = _SHAPES[kind][n_defs][1 if expand else 0][n_groups][n_tags][1 if delay else 0]
+    if n_defs == 0:
+        issues = _DEFS.validate_onset_offset(hs)
+    else:
+        tag = hs.find_def_tags(recursive=True, include_groups=0)[0]
+        try:
+            tag.extension = dname                   # public setter; symbolic name on the real parsed Def tag
+            issues = _DEFS.validate_onset_offset(hs)
+        finally:
+            tag.extension = "x"                     # fixtures are shared between paths: always restore
+    label, _, value = dname.partition("/")
+    takes = ref.same_name(label, "y")
+    known = takes or ref.same_name(label, "x")
+    if ref.group_ok(kind, n_defs, n_groups, n_tags, known, takes, value != ""):
+        return issues == []
+    return 1 <= len(issues) <= 2 and _all_tte(issues)
+
+
 # disjoint cover of m in 0..2 x kinds: m=0 one cell; m=1 by kind_a; m=2 by (kind_a, kind_b)
 _TP_CELLS = ([{"VP_MARKERS": 0}] + R.product_cells([{"VP_MARKERS": 1}], R.int_cells("VP_KIND", 0, 2))
              + R.product_cells([{"VP_MARKERS": 2}], R.int_cells("VP_KIND", 0, 2), R.int_cells("VP_KINDB", 0, 2)))
@@ -171,6 +249,9 @@ _TP_CELLS = ([{"VP_MARKERS": 0}] + R.product_cells([{"VP_MARKERS": 1}], R.int_ce
 _T_STEP = ["hed.validator.onset_validator.OnsetValidator._handle_onset_or_offset"]
 _T_TP = ["hed.validator.onset_validator.OnsetValidator.validate_temporal_relations",
          "hed.validator.onset_validator.OnsetValidator._handle_onset_or_offset"]
+_T_SHAPE = ["hed.validator.def_validator.DefValidator.validate_onset_offset",
+            "hed.validator.def_validator.DefValidator._handle_onset_or_offset",
+            "hed.models.hed_string.HedString.find_top_level_tags", "hed.models.hed_group.HedGroup.find_def_tags"]
 _STUBS = ["stub tags exposing only `extension` / `short_base_tag` (and a constant __str__ for messages); the "
           "pre-state dict is set directly on OnsetValidator._onsets, restricted to the invariant 'keys are "
           "case-folded and distinct', which the harness re-checks on every post-state",
@@ -204,6 +285,25 @@ HARNESSES = [
         oracle="models/onset_ref.py time_point()",
         stubs=_STUBS + ["stub string object whose find_top_level_tags returns the (marker, group) pairs; stub "
                         "group whose find_def_tags returns zero or one Def tag"],
-        outside="construction of time points from rows (Delay splitting, sorting, equal-onset merge: pandas), "
-                "row mapping in SpreadsheetValidator._run_onset_checks; more than 2 temporal groups per time point"),
+        outside="more than 2 temporal groups per time point; construction of time points from rows (Delay splitting, sorting, equal-onset merge: pandas), "
+                "row mapping in SpreadsheetValidator._run_onset_checks"),
+    R.H("onset_group_shape", _T_SHAPE,
+        quick=R.tier(cells=R.product_cells(R.int_cells("VP_KIND", 0, 2), R.int_cells("VP_NDEFS", 0, 2)),
+                     env={"VP_M": 2}, timeout=150,
+                     bound="one top-level temporal group: marker kind x {0,1,2 Def tags, first as Def or Def-expand "
+                           "group} x {0,1,2 other inner groups} x {0,1,2 other tags} x {Delay or not}; first Def's "
+                           "name any well-formed printable-ASCII text of 1..2 characters",
+                     ),
+        thorough=R.tier(cells=R.product_cells(R.int_cells("VP_KIND", 0, 2), R.int_cells("VP_NDEFS", 0, 2)),
+                        env={"VP_M": 4}, timeout=1100, path_timeout=60,
+                        bound="as quick with definition-name text of 1..4 characters (covers x/1, y/12, ab/1)"),
+        what="validate_onset_offset accepts the group (no issue) iff it has exactly one Def/Def-expand, at most "
+             "one other child for Onset/Inset and none for Offset (Delay not counted), that child is a group, the "
+             "definition exists (case-insensitive) and a value is given iff the definition takes one; otherwise "
+             "1..2 issues, all TEMPORAL_TAG_ERROR",
+        oracle="models/onset_ref.py group_ok()",
+        stubs=["mini schema (vp/mini.py) with definitions x (no value) and y/# built by the real DefinitionDict",
+               "chx: ASCII-exact z3 model of str.casefold; names are printable ASCII"],
+        outside="other tags/groups than the fixed fillers A, F, (A), (F), (B); several temporal groups in one "
+                "string; nesting below top level; malformed name text (empty components, delimiters)"),
 ]
